@@ -306,6 +306,33 @@ void root() {
     if (S->dtor_calls[tok] != S->dtor_expected[tok])
       violate(S->dtor_calls[tok] < S->dtor_expected[tok] ? "tls_dtor_missing" : "tls_dtor_unexpected", "destroy notifier", "value %d: notifier ran %d time(s), expected %d", tok, S->dtor_calls[tok], S->dtor_expected[tok]);
   for (int k = 0; k < S->nk; k++) HX_API_V("p_uthread_local_free", 10 + k, false, p_uthread_local_free(S->keys[k].k));
+  // a key released while a thread still holds a value under it: the value is still a value "left at thread exit" of that thread
+  if (gen(4) == 0) {
+    // the two flags are library atomics: the hand-over of the key between the threads is properly synchronised, as a caller would do it
+    static int late_calls; static volatile pint stored, key_gone;
+    late_calls = 0; stored = 0; key_gone = 0;
+    PUThreadKey *lk = HX_API("p_uthread_local_new", 20, false, p_uthread_local_new([](ppointer v) { if ((intptr_t)v == 4711) late_calls++; else late_calls += 100; }));
+    if (!lk) violate("new_returned_null", "p_uthread_local_new", "p_uthread_local_new returned NULL");
+    struct Arg { PUThreadKey *k; } arg{lk};
+    PUThread *th = HX_API("p_uthread_create", 20, false, p_uthread_create([](ppointer a) -> ppointer {
+      HX_API_V("p_uthread_set_local", 20, false, p_uthread_set_local(((Arg *)a)->k, (ppointer)(intptr_t)4711));
+      p_atomic_int_set(&stored, 1);
+      for (int i = 0; i < 400 && !p_atomic_int_get(&key_gone); i++) HX_API_V("p_uthread_yield", 0, false, p_uthread_yield());
+      return nullptr;            // the key object is gone by now; the thread does not touch it again
+    }, &arg, TRUE, nullptr));
+    if (!th) violate("create_returned_null", "p_uthread_create", "p_uthread_create failed");
+    bool was_stored = false;
+    for (int i = 0; i < 400 && !(was_stored = p_atomic_int_get(&stored) != 0); i++) yield_point();
+    if (was_stored) {
+      HX_API_V("p_uthread_local_free", 20, false, p_uthread_local_free(lk));
+      p_atomic_int_set(&key_gone, 1);
+      probe("tls.key_freed_while_value_held");
+    }
+    HX_API("p_uthread_join", 20, false, p_uthread_join(th));
+    if (!was_stored) { HX_API_V("p_uthread_local_free", 20, false, p_uthread_local_free(lk)); }
+    else if (late_calls != 1) violate(late_calls == 0 ? "tls_dtor_missing" : "tls_dtor_unexpected", "destroy notifier", "a value left at thread exit under a key that had been released meanwhile: notifier ran %d time(s), expected once", late_calls);
+    HX_API_V("p_uthread_unref", 20, false, p_uthread_unref(th));
+  }
   lib_end();
   delete S; S = nullptr;
 }
